@@ -73,6 +73,10 @@ pub enum MatcherKind {
     /// written with the `matching!` macro: one of the fixed patterns `MACRO_MASKS[k]`
     /// (the pattern's mask is forced to that pattern's accept set)
     Macro(u8),
+    /// `matching!(eq!(&v))` for v = .0 in 0..8, all eight written by ONE macro_rules! invocation: same file,
+    /// same reported line, same rendered text `eq!(..)`, different predicates. Keeps the macro's own
+    /// pattern debug record (the pattern is then named by its source text, not by an id).
+    MacroEq(u8),
 }
 
 /// Accept sets (bit x = argument x) of the `matching!` patterns of `MatcherKind::Macro(k)`:
